@@ -25,7 +25,7 @@ ASSUMPTIONS = [
     "structural rulebook signature covers patterns, flags, logic/diff_logic/apply_logic qualified names, params, nesting",
 ]
 EXHAUSTIVE = {"quick": True, "thorough": True}
-FLOORS = {"quick": {"entries": 168, "rulebooks_loaded": 100, "registry_orders": 100, "cross_process_signatures": 20, "shared_provider_loads": 200, "shared_provider_loads_of_respelled_models": 300, "spellings_that_are_other_hardware": 20, "models_in_two_families_of_different_chains": 40, "answers_of_a_growing_registry": 3000, "interrupted_loads": 60, "rulebooks_loaded_first_in_a_fresh_interpreter": 25},
+FLOORS = {"quick": {"entries": 168, "rulebooks_loaded": 100, "registry_orders": 100, "cross_process_signatures": 20, "shared_provider_loads": 200, "shared_provider_loads_of_respelled_models": 300, "spellings_that_are_other_hardware": 20, "models_in_two_families_of_different_chains": 40, "answers_of_a_growing_registry": 3000, "interrupted_loads": 60, "rulebooks_loaded_first_in_a_fresh_interpreter": 25, "rulebooks_from_a_site_provider_with_lazy_roots": 20},
           "thorough": {"entries": 168, "rulebooks_loaded": 100, "registry_orders": 100, "cross_process_signatures": 20}}
 SOFTS = ["", "Cumulus Linux 4.4", "VRP V200R005"]
 
@@ -35,6 +35,7 @@ def plan(tier, seed):
     specs = [{"mode": "main", "tier": tier, "seed": seed, "shard": k, "nshards": n} for k in range(n)]
     specs.append({"mode": "xproc", "tier": tier, "seed": seed})
     specs.append({"mode": "firstload", "tier": tier, "seed": seed})
+    specs.append({"mode": "site", "tier": tier, "seed": seed})
     for j in range(2 if tier == "quick" else 8):
         specs.append({"mode": "shared", "tier": tier, "seed": seed, "perm": j})
     return specs
@@ -381,6 +382,8 @@ def run_shard(spec, acc):
             check_interrupted(mdl, irng.choice([".rul", ".order", ".deploy"]), irng.choice(["_read_escaped_rul", "_render_rul", "open", "mako_render"]), acc,
                               before=irng.choice([None, irng.choice(plain)]))
         return
+    if spec["mode"] == "site" or (spec["mode"] == "replay" and spec["witness"].get("site")):
+        return run_site(spec, acc)
     if spec["mode"] == "firstload":
         # every vendor's rulebook as the FIRST one an interpreter loads (a run over one kind of device): the logic modules a rulebook names
         # must import whatever was - or was not - imported before
@@ -468,6 +471,76 @@ def run_shard(spec, acc):
                 acc.violation("C18/canonical-hardware-resolves-to-other-vendor/%s" % v.NAME,
                               "a registered vendor's own canonical hardware resolves to a different vendor",
                               {"model": v.hardware.model, "soft": "", "entry": None, "vendor": v.NAME, "got": got and got.NAME})
+
+
+def run_site(spec, acc):
+    """a site installation: its own rulebook directory in front of the shipped one and its own (nearly empty) package of logic functions in front
+    of annet.rulebook, both handed to the provider as lazily evaluated iterables (the signature says Iterable[str]); every model still gets the
+    rulebook a provider built with plain tuples and the shipped package alone gives for the same directories"""
+    import shutil
+    import tempfile
+    from annet.annlib.netdev.views.hardware import HardwareView
+    from annet.annlib.rbparser.platform import VENDOR_ALIASES
+    from annet.rulebook import DefaultRulebookProvider, rulebook_provider_connector
+    stock = DefaultRulebookProvider.root_dir[0]
+    d = tempfile.mkdtemp(prefix="vf_c18_site_")
+    models = ["Huawei CE6870", "Huawei NE40E-X8", "H3C", "Cisco Catalyst 2960", "Cisco Nexus 9316", "Cisco ASR 9010", "Arista", "Aruba", "B4com", "RouterOS", "Juniper", "Nokia", "PC"]
+    rng = random.Random("C18/site/%s" % spec.get("seed", 0))
+    had_cache = rulebook_provider_connector.__dict__.get("_cache")
+    try:
+        os.makedirs(os.path.join(d, "texts"))
+        os.makedirs(os.path.join(d, "pkg", "vf_site_rulebook"))
+        open(os.path.join(d, "pkg", "vf_site_rulebook", "__init__.py"), "w").write("")
+        for name in os.listdir(os.path.join(stock, "texts")):
+            if name.endswith(".rul"):
+                with open(os.path.join(stock, "texts", name)) as f:
+                    text = f.read()
+                with open(os.path.join(d, "texts", name), "w") as f:
+                    f.write("vfsite%d *\n" % rng.randrange(10 ** 6) + text)   # (a text no compile cache of this process has seen: every logic name is resolved anew)
+        sys.path.insert(0, os.path.join(d, "pkg"))
+        for rnd in range(2 if spec.get("tier", "quick") == "quick" else 8):
+            order = list(models)
+            rng.shuffle(order)
+            plain_prov = DefaultRulebookProvider(root_dir=(d, stock))
+            lazy = DefaultRulebookProvider(root_dir=(x for x in (d, stock)), root_modules=iter(["vf_site_rulebook", "annet.rulebook"]))
+            for mdl in order:
+                hw = HardwareView(mdl, "")
+                if hw.vendor is None:
+                    continue
+                w = {"site": True, "model": mdl, "soft": "", "order_prefix": order[:order.index(mdl)]}
+                try:
+                    rulebook_provider_connector._cache = plain_prov
+                    want = R_hash(rb_signature(plain_prov.get_rulebook(hw)))
+                except Exception as e:
+                    acc.violation("C18/rulebook-does-not-load/%s" % type(e).__name__, "get_rulebook() fails for a model of the device database", dict(w, error=repr(e)[:300]))
+                    continue
+                try:
+                    rulebook_provider_connector._cache = lazy
+                    # (the compiled-text caches are emptied, as in a process of its own: the lazy provider resolves every logic name itself)
+                    from annet.rulebook.patching import compile_patching_text
+                    from annet.annlib.rbparser.ordering import compile_ordering_text
+                    from annet.rulebook.deploying import compile_deploying_text
+                    from annet.rulebook.common import import_rulebook_function
+                    for f_ in (compile_patching_text, compile_ordering_text, compile_deploying_text, import_rulebook_function):
+                        if hasattr(f_, "cache_clear"):
+                            f_.cache_clear()
+                    got = R_hash(rb_signature(lazy.get_rulebook(hw)))
+                except Exception as e:
+                    got = "ERR %s: %s" % (type(e).__name__, str(e)[:200])
+                acc.count("rulebooks_from_a_site_provider_with_lazy_roots")
+                acc.case([mdl, "site", rnd], nontrivial=True)
+                if got != want:
+                    acc.violation("C18/site-provider-gives-another-rulebook", "a provider given its directories and logic packages as lazily evaluated iterables (a site package in front) does not give the rulebook a provider with plain tuples gives",
+                                  dict(w, got=got if str(got).startswith("ERR") else "another rulebook"))
+    finally:
+        if had_cache is None:
+            rulebook_provider_connector.__dict__.pop("_cache", None)
+        else:
+            rulebook_provider_connector._cache = had_cache
+        if os.path.join(d, "pkg") in sys.path:
+            sys.path.remove(os.path.join(d, "pkg"))
+        sys.modules.pop("vf_site_rulebook", None)
+        shutil.rmtree(d, ignore_errors=True)
 
 
 class InjectedFault(OSError):
